@@ -138,7 +138,7 @@ func checkC03(c *Ctx, r *Report) {
 		direct := 0
 		if er.an != nil {
 			for _, uc := range er.an.ucalls {
-				if uc.frame == er.fr {
+				if uc.frame.within(er.fr) {
 					direct++
 				}
 			}
@@ -203,10 +203,25 @@ func checkC03(c *Ctx, r *Report) {
 	r.assumption("slice lengths are below 2^31; int is 64 bits wide")
 }
 
+// callsDirect: m calls target itself, or through an unexported helper of target's package that is
+// not an encoder or parser of its own (e.g. a "put CRC trailer" helper): depth <= 2.
 func callsDirect(m, target *ssa.Function) bool {
+	return callsWithin(m, target, 0)
+}
+
+func callsWithin(m, target *ssa.Function, depth int) bool {
 	for _, b := range m.Blocks {
 		for _, in := range b.Instrs {
-			if ci, ok := in.(ssa.CallInstruction); ok && ci.Common().StaticCallee() == target {
+			ci, ok := in.(ssa.CallInstruction)
+			if !ok {
+				continue
+			}
+			sc := ci.Common().StaticCallee()
+			if sc == target {
+				return true
+			}
+			if depth < 2 && sc != nil && sc != m && sc.Pkg == target.Pkg && sc.Object() != nil && !sc.Object().Exported() &&
+				sc.Signature.Recv() == nil && sc.Blocks != nil && callsWithin(sc, target, depth+1) {
 				return true
 			}
 		}
@@ -237,7 +252,7 @@ func c03Encoder(c *Ctx, r *Report, er encRun, id string) map[string]bool {
 	var uc *UCall
 	n := 0
 	for i := range er.an.ucalls {
-		if er.an.ucalls[i].frame == er.fr {
+		if er.an.ucalls[i].frame.within(er.fr) {
 			uc = &er.an.ucalls[i]
 			n++
 		}
